@@ -32,6 +32,9 @@ PATCHES = {
     "none": {},
     "callsign": {"callsign": "x"},
     "dmr_id": {"dmr_id": 7},
+    # a built-in field named with the value None is set to None (what a storage-created record starts with); None for a *dynamic* attribute
+    # means "do not write" in Repeater.attr and stays outside the statement
+    "dmr_none": {"dmr_id": None},
     "custom": {"custom": 1},
     "custom2": {"custom": 2},  # a *different* value for an already stored dynamic attribute
     "out": {"address_out": OUT},
@@ -159,6 +162,36 @@ class StorageSystem(explore.System):
     def _candidates(self, pred):
         return [i for i, m in enumerate(self.model) if pred(m)]
 
+    def _lookup_queries(self):
+        cfg = self.cfg
+        qs = [("match_incoming", a) for a in cfg.addrs]
+        qs += [("match_attr",) + tuple(ma) for ma in getattr(cfg, "match_attrs", DEFAULT_MATCH_ATTRS)]
+        qs += [("match_ip_incoming", ip) for ip in getattr(cfg, "ips", DEFAULT_IPS)]
+        return qs
+
+    def _all_lookup_answers(self):
+        """the record (object identity) every read-only lookup of the alphabet answers with right now"""
+        out = {}
+        for q in self._lookup_queries():
+            try:
+                r = getattr(self.impl, q[0])(*q[1:])
+            except Exception:  # noqa: BLE001
+                continue
+            if isinstance(r, Repeater):
+                out[q] = r
+        return out
+
+    def _compare_lookup_answers(self, before):
+        diff = {}
+        for q, r0 in before.items():
+            try:
+                r1 = getattr(self.impl, q[0])(*q[1:])
+            except Exception as e:  # noqa: BLE001
+                r1 = e
+            if r1 is not r0:
+                diff[q] = (self._index_of(r0), self._index_of(r1) if isinstance(r1, Repeater) else repr(r1))
+        return diff
+
     # ---- one transition ------------------------------------------------------------------
     def step(self, ev):
         SEAMS.uid = self.uid
@@ -180,8 +213,14 @@ class StorageSystem(explore.System):
                 if not cands and not auto and patch:
                     undefined = True
                 given = dict(patch)
+                answers_before = self._all_lookup_answers() if (auto and not cands) else None
                 ret = self.impl.match_incoming(addr, auto_create=auto, patch=given)
                 expect = ("lookup", addr, cands, auto, patch)
+                if answers_before is not None and isinstance(ret, Repeater) and self._index_of(ret) is None:
+                    # a record was created for an unseen address and nothing else was touched: every lookup (by address, by IP, by
+                    # attribute) that had an answer before still gives that same record
+                    for q, (b, a_) in self._compare_lookup_answers(answers_before).items():
+                        viol.append(("creating_a_record_changes_the_answer_of_another_lookup", {"event": list(ev), "lookup": list(q), "before": b, "after": a_}))
             elif kind == "save":
                 patch = self._patch_dict(ev[2])
                 given = dict(patch)
@@ -417,6 +456,7 @@ def EDGE_SYSTEM():
 WHAT = {
     "lookup_returns_wrong_record": "lookup of a known address returned an object that is not the record created for it",
     "lookup_identity_unstable": "two lookups of the same address returned different records",
+    "creating_a_record_changes_the_answer_of_another_lookup": "a lookup by address / IP / attribute that had an answer gives another record after a record was created for an unseen address (nothing else happened)",
     "other_record_changed": "a call changed a record other than the matched one",
     "patch_effect_differs_on_matched_record": "after the call the matched record's fields/attrs are not exactly base + named patch",
     "storage_grew_unexpectedly": "storage grew on a call that is not an auto-creating lookup of an unseen address",
@@ -436,12 +476,12 @@ def run(only=None):
     rep.assumptions = [
         "uuid.uuid4 replaced by a counter (ids fresh by construction; id collisions from the RNG are out of scope)",
         "patch keys restricted to the pool {callsign, dmr_id, address_out, custom, p2p_is_registered} (+ address_in in the bounded run); "
-        "patching 'id', method names or None values is outside the statement",
+        "patching 'id', method names or a None value for a dynamic attribute is outside the statement (None for the built-in field dmr_id is in: the field becomes None)",
         "defaults of a newly created record are learned from the implementation (not part of the property)",
     ]
     deadline = None
     # run 1: two colliding addresses (same IP), fix-point over the full alphabet
-    quick_patches = {k: PATCHES[k] for k in ("none", "callsign", "custom", "custom2", "nat_on")}
+    quick_patches = {k: PATCHES[k] for k in ("none", "callsign", "custom", "custom2", "nat_on", "dmr_id", "dmr_none")}
     runs = [
         ("fixpoint_2addr", make_system([A, C], PATCHES if rep.thorough() else quick_patches), None),
     ]
